@@ -34,7 +34,7 @@ def cases(seed, tier, broken=()):
                             "struct": str(rng.choice(["DA", "DA", "DS", "LIST"])), "per_field": bool(rng.random() < 0.5),
                             "log_scale": float(rng.uniform(-6, 6)), "c": float(rng.choice([-3.7, 0.5, 1e-4, 2.5e5, -1e-3])),
                             "latname": names[int(rng.integers(0, len(names)))], "extra_flags": bool(rng.random() < 0.5),
-                            "wide_std": bool(rng.random() < 0.5)})
+                            "wide_std": bool(rng.random() < 0.5), "one_sided": bool((i + r) % 2)})
     return out
 
 
@@ -226,7 +226,7 @@ def run(case):
             cc = (cc[0], cc[1] + "|weights-stored-in-other-order")
         else:
             W_fit, WY_fit = W, WY
-        if two and case["mseed"] % 3 == 0 and isinstance(Xc, xr.DataArray):
+        if two and case.get("one_sided") and isinstance(Xc, xr.DataArray):
             # weights for ONE field only, the other field living on the very same grid: the other field stays unweighted
             Ys = (field(np.random.default_rng(case["mseed"] + 11), n, 3, 4, cplx, off=-0.5) + 0.4 * X0.values).rename(lat=latname)
             Ys = Ys - Ys.mean("time")
